@@ -40,7 +40,7 @@ def main(chk: core.Check) -> int:
         files, plan = [], {"seed": chk.seed, "files": []}
         n_files = 10 if thorough else 4
         for fi in range(n_files):
-            nblk = [0, 1, 5, 3, 8, 2, 12, 4, 6, 7][fi % 10]
+            nblk = [0, 1, 5, 40, 8, 2, 12, 4, 6, 7][fi % 10]
             blocks = []
             ev = 0
             for _ in range(nblk):
@@ -59,8 +59,16 @@ def main(chk: core.Check) -> int:
                     sel = rng.choice([None, None] + [rng.sample(ALL, k) for k in (1, 2, 3, 6)])
                     delays = [rng.choice([0, 0.0, 0.004, 0.012]) for _ in range(6)] if workers > 1 else []
                     calls.append({"n_blocks": nb, "per_batch": pb, "workers": workers, "sel": sel, "delays": delays})
-            for _ in range(6 if thorough else 2):
+            if N >= 20:
+                # many batches in flight, the FIRST decoding task is the slowest: completion order != submission order
+                for w in (2, 4, 16):
+                    calls.append({"n_blocks": -1, "per_batch": 1, "workers": w, "sel": None, "delays": [0.25] + [0.0] * 63})
+                calls.append({"n_blocks": N - 3, "per_batch": 2, "workers": 4, "sel": ["emc", "trg"], "delays": [0.2, 0.0, 0.05] + [0.0] * 61})
+            for hk in range(6 if thorough else 3):
                 hist = [{"n_blocks": rng.choice(nbs), "per_batch": rng.choice(pbs)} for _ in range(rng.randint(2, 4))]
+                if hk % 2 == 0:
+                    # a rejected call (mistyped sub-detector name) in the middle of the history
+                    hist.insert(rng.randint(1, len(hist) - 1), {"n_blocks": -1, "per_batch": 3, "bad_sel": ["mdc", "tofx"]})
                 calls.append({"history": hist, "workers": rng.choice([1, 4]), "sel": rng.choice([None, ["mdc", "emc"]]), "per_batch": 0, "n_blocks": 0})
             plan["files"].append({"id": fi, "path": path, "calls": calls})
             files.append((path, blocks))
@@ -113,6 +121,10 @@ def main(chk: core.Check) -> int:
                 return project(rf.expected(evs, ALL), sel)
             if res.get("history"):
                 for h, got in zip(res["history"], res["results"]):
+                    if h.get("bad_sel"):
+                        if got != "raised":
+                            chk.failing_input("arrays() with an invalid sub-detector name", {"history": res["history"]}, got, "an exception", "invalid selection is rejected")
+                        continue
                     if got != want_for(h["n_blocks"], res.get("sel")):
                         chk.failing_input("sequence of arrays() calls on one reader", {"blocks_in_file": N, "history": res["history"], "sub_detectors": res.get("sel")}, f"{len(got)} events", f"{len(want_for(h['n_blocks'], res.get('sel')))} events (first n blocks of the full read)", "reading the same reader again returns the same events")
                         break
